@@ -475,6 +475,10 @@ Proof.
   - pose proof (transfer_lp_ok _ _ _ _ _ _ H) as (_ & _ & _ & _ & _ & _ & _ & _ & S1 & _).
     split. eapply transfer_lp_inv; eassumption. lia.
   - discriminate.
+  - destruct (en_s s); discriminate.
+  - destruct (en_d s); discriminate.
+  - destruct (en_s s); discriminate.
+  - destruct (en_s s); discriminate.
 Qed.
 
 Lemma apply_inv k s o : 0 < c_minliq k -> Inv k s -> Inv k (apply k s o) /\ (0 < supply s -> 0 < supply (apply k s o)).
@@ -543,6 +547,10 @@ Proof.
   - pose proof (transfer_lp_ok _ _ _ _ _ _ H) as (_ & _ & _ & _ & B0 & B1 & P0 & P1 & S1 & _).
     unfold res0, res1. rewrite B0, B1, P0, P1, S1. lia.
   - discriminate.
+  - destruct (en_s s); discriminate.
+  - destruct (en_d s); discriminate.
+  - destruct (en_s s); discriminate.
+  - destruct (en_s s); discriminate.
 Qed.
 
 (* deposit then immediately withdraw what was minted: never more than was deposited *)
